@@ -108,7 +108,7 @@ META = {
     },
     "C09": {
         "text": "Coq theorems for every operator string, labelling and flip outcome: the cluster flip leaves the skeleton (number, positions, bonds, variables, constant flags) unchanged; re-decomposing the result yields the identical decomposition; a cluster containing a zero-ratio (symmetry-breaking) operator has weight 0 and a zero-probability cluster is flipped with probability 0; for every labelling accepted by the validators the flip keeps the world line, the weight product and is an involution; as a kernel on complete configurations (one fair bit per cluster) the update reaches y from x exactly as likely as x from y, weights included (detailed balance), and equals the model's cluster_update for every observable. THE DECOMPOSITION ITSELF IS PROVED CORRECT (Proofs/DecomposeProofs.v, loop invariant over labelling / frontier / interior stack with 'effective labels'; periodic neighbours proved mutually inverse): every labelling the transcribed decomposition returns, for any operator string, passes both validators (partial correctness: a None result = fuel exhausted is outside the statement), so the model's own cluster update - no validation wrapper - is stationary for the SSE weight on the complete configuration space of every flip-symmetric table. The model transcribes the exploration order of cluster.rs, so that one raw RNG word maps to the same cluster in model and code; it is replayed bit-exactly on synthetic random strings and on equilibrium strings, and the validators are evaluated in Coq on every replayed decomposition.",
-        "note": 'Trusted: Coq kernel + vm_compute; Model/Cluster.v. That decompose yields only labellings accepted by links_ok / sides_ok is now a theorem (C09_decomposition_is_valid); termination within the model's fuel is not proved (a None result would show as a mismatch in the correspondence). The unrestricted flip statement (arbitrary labelling) is refuted in Coq; the validators still run on every correspondence configuration as a cross-check.',
+        "note": 'Trusted: Coq kernel + vm_compute; Model/Cluster.v. That decompose yields only labellings accepted by links_ok / sides_ok is now a theorem (C09_decomposition_is_valid); termination within the fuel of the model is not proved (a None result would show as a mismatch in the correspondence). The unrestricted flip statement (arbitrary labelling) is refuted in Coq; the validators still run on every correspondence configuration as a cross-check.',
         "technique": "Coq proof (fold invariants, exact mass of the draw program) + raw-tape replay of the real cluster update incl. cluster numbering",
         "design_ref": "DESIGN.md §3 C09",
     },
